@@ -386,6 +386,20 @@ Proof.
     rewrite app_nil_r. exact Hb1.
 Qed.
 
+Lemma drop_gone_nil p r : drop_gone p [] r = r.
+Proof. unfold drop_gone. apply filter_all. intros x _. simpl. rewrite andb_false_r. reflexivity. Qed.
+
+(* a discovery reply announces no entity as removed (Model/Stack.v as of this round) *)
+Lemma reply_no_gone s p m : gone_seen (snd (step s (DiscoveryReply p m))) = [].
+Proof.
+  cbn [step]. unfold with_source. destruct (find_peer s p) as [pe|]; [|reflexivity].
+  destruct (remote_feature pe (nm_addr None)); [|reflexivity].
+  destruct (add_entities _ m (dm_ents m)) as [pe1 created].
+  assert (H : gone_seen (OEvent EvDevice ChAdd p None None None :: map (ev_entity ChAdd pe1) created) = []).
+  { simpl. induction created as [|x l IH]; simpl; [reflexivity | exact IH]. }
+  destruct (p_addr pe1); exact H.
+Qed.
+
 Lemma drop_peer_abs p l : drop_peer p (abs l) = abs (not_of p l).
 Proof. unfold drop_peer, not_of. apply filter_abs. intros x. reflexivity. Qed.
 
